@@ -33,6 +33,7 @@ class SimpleCookieJar:
                 if domain := v.get("domain"):
                     if not domain.startswith("."):
                         domain = f".{domain}"
+                    domain = domain.lower()
                     cookie = (
                         self.jar.get(domain)
                         if self.jar.get(domain)
